@@ -81,9 +81,11 @@ static void c16_case(uint64_t idx, rng_t *r) {
     size_t written = bytes_actually_written(c, a, n, cap, &ret, &info, &enc);
     if (ret == 0) goto out;
     bool elias = !strncmp(c->name, "elias", 5);
-    if (!elias) {
-        M16(written == ret, "returned-size-differs-from-bytes-written", "n=%zu returned %zu, highest modified offset+1 = %zu", n, ret, written);
-    }
+    /* The returned size must not claim bytes the encoder never touched.  An encoder that also touches scratch bytes
+     * beyond its returned size (word-wise stores, the Elias writer clearing its whole capacity) is inside what the
+     * sizing functions advertise (C03's subject) and is only counted here. */
+    M16(written >= ret, "returned-size-claims-bytes-never-written", "n=%zu returned %zu, highest modified offset+1 = %zu", n, ret, written);
+    if (written > ret && !elias) STAT_INC("c16_encoders_touching_bytes_beyond_returned_size");
     uint64_t mn = a[0], mx = a[0];
     for (size_t i = 1; i < n; i++) { if (a[i] < mn) mn = a[i]; if (a[i] > mx) mx = a[i]; }
 
